@@ -25,14 +25,15 @@ func (q *QCase) Toks() string {
 }
 
 type IdxCase struct {
-	Data    *DataSpec `json:"data"`
-	Writer  string    `json:"writer"` // mem | memdb | big
-	Preload bool      `json:"preload"`
-	Cache   int64     `json:"cache"`  // -1: none, else LRU capacity in bytes
-	Reopen  int       `json:"reopen"` // close+reopen this many times before querying
-	Queries []QCase   `json:"queries"`
-	Fresh   bool      `json:"fresh"` // compare every answer with a freshly opened uncached index too
-	Other   *DataSpec `json:"other,omitempty"` // C08: a second index the same *Query values are executed on in between
+	Data     *DataSpec `json:"data"`
+	Writer   string    `json:"writer"` // mem | memdb | big
+	Preload  bool      `json:"preload"`
+	Cache    int64     `json:"cache"`  // -1: none, else LRU capacity in bytes
+	Reopen   int       `json:"reopen"` // close+reopen this many times before querying
+	Queries  []QCase   `json:"queries"`
+	Fresh    bool      `json:"fresh"`               // compare every answer with a freshly opened uncached index too
+	StaleTmp bool      `json:"stale_tmp,omitempty"` // an old index sits at <output>.tmp before the writer runs
+	Other    *DataSpec `json:"other,omitempty"`     // C08: a second index the same *Query values are executed on in between
 }
 
 func toExpr(e *Ex) updog.Expression {
@@ -358,6 +359,12 @@ func runIdxCase(o *Oracle, c *IdxCase, rep *Report, fl idxFlags) {
 		rep.Violate(Violation{Kind: kind, Signature: sig, What: what, Expected: trunc(exp, 2000), Actual: trunc(act, 2000), Case: c})
 	}
 
+	if c.StaleTmp {
+		old := []map[string]string{{"kind": "legacy", "host": "h9"}, {"kind": "legacy"}, {"host": "h9", "a": "1"}}
+		os.Remove(path + ".tmp")
+		buildIndexFile("mem", old, path+".tmp")
+		defer os.Remove(path + ".tmp")
+	}
 	ids, err := buildIndexFile(c.Writer, rows, path)
 	if err != nil {
 		viol("input", "build-failed:"+c.Writer, "writer failed on valid rows: "+err.Error(), "Flush succeeds", err.Error())
@@ -372,8 +379,12 @@ func runIdxCase(o *Oracle, c *IdxCase, rep *Report, fl idxFlags) {
 
 	useModel := len(rows) <= 300 && st.pairs <= 1500
 	o.Send("idx reset")
-	for _, r := range rows {
-		o.Send(rowLine(r))
+	{
+		var lines []string
+		for _, r := range rows {
+			lines = append(lines, rowLine(r))
+		}
+		o.SendMany(lines)
 	}
 	mode := "fast"
 	if useModel {
@@ -391,7 +402,13 @@ func runIdxCase(o *Oracle, c *IdxCase, rep *Report, fl idxFlags) {
 		got, err := dumpKeys(path)
 		if err != nil {
 			viol("input", "dump-failed", "cannot read back flushed file: "+err.Error(), "readable index file", err.Error())
-		} else if useModel {
+		} else if !useModel {
+			// large datasets: at least the row counter and the NUMBER of stored bitmaps must be the model's
+			f := strings.Fields(got)
+			if want := o.Ask("idx imagecount"); len(f) >= 3 && want != strings.Join(f[:3], " ") {
+				viol("input", "image-mismatch", "row counter / number of stored bitmaps differs from the model", want, strings.Join(f[:3], " "))
+			}
+		} else {
 			if want := o.Ask("idx image"); want != got {
 				viol("input", "image-mismatch", "bolt key set / row counter differs from the model image", want, got)
 			}
@@ -570,7 +587,6 @@ func runIdxCase(o *Oracle, c *IdxCase, rep *Report, fl idxFlags) {
 	}
 }
 
-
 // recCache is an unbounded map cache that logs every call (same format as the oracle's logging cache).
 type recCache struct {
 	m   map[uint64]*roaring.Bitmap
@@ -624,7 +640,6 @@ func traceTie(o *Oracle, path string, c *IdxCase, rep *Report) {
 		}
 	}
 }
-
 
 // mutationTie executes expression OBJECTS that are changed in place between executions (a leaf's value replaced, an
 // operand appended): each execution must still answer like the model does for the tree as it is at that moment.
